@@ -1288,3 +1288,228 @@ def rule_K8(run: Run, prog: Program, only: set | None = None) -> int:
                             f"collection that is the extreme over every element, so one large (or small) element changes the verdict for all the others; "
                             f"the same objects give a different answer one by one (reduce with axis= over the coordinate axes only)", loc)
     return n
+
+
+# ------------------------------------------------------------------------------------------------ K9
+# delete / insert / take / append / unique are left out on purpose: the package uses np.delete with flat indices from np.ravel_multi_index
+FLATTENING_WITHOUT_AXIS = {"roll", "flip", "argmax", "argmin", "cumsum", "cumprod", "repeat"}
+AXIS_DEFAULT_LAST = {"sort", "argsort", "diff", "trapz"}  # these default to the last axis, not to the flattened array
+
+
+def _scalar_guarded(fn: FunctionInfo, node: ast.AST) -> bool:
+    """node sits in the arm of an `if` whose test says the data is a single object (np.isscalar(..), free_indices == 0, ndim == 1 ...)"""
+    def find(stmts, guarded):
+        for st in stmts:
+            if not any(x is node for x in ast.walk(st)):
+                continue
+            if isinstance(st, ast.If):
+                src = ast.unparse(st.test)
+                single = "isscalar" in src or ("free_indices" in src and "== 0" in src) or ("ndim" in src and ("== 1" in src or "== 0" in src))
+                if any(x is node for b in st.body for x in ast.walk(b)):
+                    return find(st.body, guarded or single)
+                if any(x is node for b in st.orelse for x in ast.walk(b)):
+                    neg = ("free_indices" in src and "> 0" in src) or "not np.isscalar" in src
+                    return find(st.orelse, guarded or neg)
+                return guarded
+            for f in ("body", "orelse", "finalbody"):
+                sub = getattr(st, f, None)
+                if isinstance(sub, list) and sub and isinstance(sub[0], ast.stmt) and any(x is node for b in sub for x in ast.walk(b)):
+                    return find(sub, guarded)
+            return guarded
+        return guarded
+    return find(fn.node.body, False)
+
+
+def rule_K9(run: Run, prog: Program, only: set | None = None) -> int:
+    run.rule(
+        "E6.K9",
+        "numpy operations that act on the FLATTENED array when `axis` is omitted (roll, flip, argmax/argmin, cumsum, cumprod, repeat) are given an explicit axis wherever they are applied to coordinate-derived data in code a collection can "
+        "reach: without it the rows of a collection are mixed (a roll moves the last entry of one element into the next element)",
+    )
+    tensor = prog.cls("Tensor")
+    coll = prog.find_cls("TensorCollection")
+    n = 0
+    for fn in prog.package_functions():
+        if only is not None and fn.qualname not in only:
+            continue
+        if fn.cls is not None:
+            if not prog.is_subclass(fn.cls, tensor):
+                continue
+            if coll is not None and not any(prog.is_subclass(c, coll) for c in prog.subclasses(fn.cls)):
+                continue
+        else:
+            anns = [p.annotation for p in fn.params() if p.annotation is not None]
+            va = fn.node.args.vararg
+            if va is not None and va.annotation is not None:
+                anns.append(va.annotation)
+            if not any(ks and any(prog.is_subclass(k, tensor) for k in ks) for ks in (prog.annotation_classes(fn.module, a) for a in anns)):
+                continue
+        # names derived from coordinate data
+        derived: set[str] = set()
+        assigns = [st for st in walk_no_nested(fn.node) if isinstance(st, ast.Assign)]
+
+        def is_coord(e: ast.AST) -> bool:
+            return any(isinstance(x, ast.Attribute) and x.attr in COORD_ATTRS for x in ast.walk(e)) or any(
+                isinstance(x, ast.Name) and x.id in derived for x in ast.walk(e))
+
+        changed = True
+        while changed:
+            changed = False
+            for st in assigns:
+                if is_coord(st.value):
+                    for t in st.targets:
+                        for x in ast.walk(t):
+                            if isinstance(x, ast.Name) and x.id not in derived:
+                                derived.add(x.id)
+                                changed = True
+        for call in walk_no_nested(fn.node):
+            if not isinstance(call, ast.Call):
+                continue
+            f = call.func
+            name = f.attr if isinstance(f, ast.Attribute) else getattr(f, "id", "")
+            if name not in FLATTENING_WITHOUT_AXIS or name in AXIS_DEFAULT_LAST:
+                continue
+            is_np = isinstance(f, ast.Attribute) and isinstance(f.value, ast.Name) and f.value.id in ("np", "numpy")
+            is_method = isinstance(f, ast.Attribute) and not is_np
+            data = call.args[0] if (is_np and call.args) else (f.value if is_method else None)
+            if data is None or not is_coord(data):
+                continue
+            if is_method and name not in ("argmax", "argmin", "cumsum", "cumprod", "repeat", "take"):
+                continue
+            n_pos = {"roll": 3, "flip": 2, "argmax": 2, "argmin": 2, "cumsum": 2, "cumprod": 2, "repeat": 3, "delete": 3, "insert": 4, "append": 3, "take": 3,
+                     "unique": 99, "searchsorted": 99}.get(name, 99)
+            args_given = len(call.args) + (1 if is_method else 0)
+            has_axis = any(k.arg == "axis" and not (isinstance(k.value, ast.Constant) and k.value.value is None) for k in call.keywords) or args_given >= n_pos
+            n += 1
+            loc = f"{fn.module.rel}:{call.lineno}"
+            label = ast.unparse(call)[:70]
+            unravelled = name in ("argmax", "argmin") and any(
+                isinstance(x, ast.Call) and getattr(x.func, "attr", getattr(x.func, "id", "")) == "unravel_index" and any(y is call for y in ast.walk(x))
+                for x in walk_no_nested(fn.node))
+            if has_axis:
+                run.add("E6.K9", fn.short, label, PROVEN, "explicit axis", loc)
+            elif unravelled:
+                run.add("E6.K9", fn.short, label, PROVEN, "flat position turned back into an index tuple by np.unravel_index", loc)
+            elif _scalar_guarded(fn, call):
+                run.add("E6.K9", fn.short, label, PROVEN, "only reached for a single object (scalar / no-collection guard)", loc)
+            else:
+                run.add("E6.K9", fn.short, label, VIOLATION,
+                        f"`{label}` has no axis argument: numpy then works on the flattened array, so for a collection (several points, several polygons) "
+                        f"entries of one element are moved into / compared with another element - single objects are unaffected, collections get answers "
+                        f"that depend on their neighbours", loc)
+    return n
+
+
+# ------------------------------------------------------------------------------------------------ K10
+NARROW_DTYPES = {"int8", "int16", "uint8", "uint16", "byte", "short"}
+ACCUMULATING = {"tensordot", "einsum", "dot", "matmul", "inner", "vdot", "sum", "prod", "cumsum", "cumprod", "trace", "kron", "convolve"}
+DTYPE_PRESERVING = {"reshape", "transpose", "swapaxes", "moveaxis", "copy", "ravel", "flatten", "squeeze", "expand_dims", "take", "view", "T", "array", "asarray", "ascontiguousarray"}
+
+
+def narrow_array_classes(prog: Program) -> dict[str, str]:
+    """classes whose constructor builds its array with a narrow integer dtype (np.int8 ...): qualname -> dtype name"""
+    out = {}
+    for c in prog.classes.values():
+        init = c.methods.get("__init__")
+        if init is None:
+            continue
+        for x in [y for g in prog.private_helpers(init) for y in ast.walk(g.node)]:
+            if isinstance(x, ast.keyword) and x.arg == "dtype":
+                nm = x.value.attr if isinstance(x.value, ast.Attribute) else getattr(x.value, "id", getattr(x.value, "value", ""))
+                if isinstance(nm, str) and nm in NARROW_DTYPES:
+                    out[c.qualname] = nm
+    return out
+
+
+def rule_K10(run: Run, prog: Program) -> int:
+    run.rule(
+        "E6.K10",
+        "the epsilon arrays are stored as int8: an accumulating numpy operation (tensordot, einsum, dot, matmul, sum, prod ...) whose array operands "
+        "ALL come from such narrow-integer tensors accumulates in that dtype and wraps around beyond 127 - it needs dtype= / astype() or a wider "
+        "operand. (Contractions with coordinate arrays are promoted by numpy and are fine.)",
+    )
+    narrow = narrow_array_classes(prog)
+    run.stats["narrow_integer_tensor_classes"] = sorted(prog.classes[q].name for q in narrow)
+    if not narrow:
+        run.add("E6.K10", "package", "narrow integer tensors", UNDECIDED, "no tensor class that builds its array with an int8 / int16 dtype was recognised; the clause is not judged", "")
+        return 0
+    n = 0
+    for fn in prog.package_functions():
+        names: dict[str, str] = {}  # local name -> 'tensor' (object of a narrow class) | 'array'
+
+        def kind_of(e: ast.AST) -> str | None:
+            if isinstance(e, ast.Name):
+                return names.get(e.id)
+            if isinstance(e, ast.Call):
+                t = prog.resolve_expr_name(fn.module, e.func, fn)
+                if t in narrow:
+                    return "tensor"
+                f = e.func
+                nm = f.attr if isinstance(f, ast.Attribute) else getattr(f, "id", "")
+                if nm in DTYPE_PRESERVING:
+                    src = e.args[0] if (isinstance(f, ast.Name) or (isinstance(f, ast.Attribute) and isinstance(f.value, ast.Name) and f.value.id in ("np", "numpy"))) and e.args \
+                        else (f.value if isinstance(f, ast.Attribute) else None)
+                    if src is not None and kind_of(src) == "array" and not any(k.arg == "dtype" for k in e.keywords):
+                        return "array"
+                return None
+            if isinstance(e, ast.Attribute):
+                if e.attr == "array" and kind_of(e.value) == "tensor":
+                    return "array"
+                if e.attr in ("T", "mT") and kind_of(e.value) == "array":
+                    return "array"
+                return None
+            if isinstance(e, ast.Subscript):
+                base = kind_of(e.value)
+                if base == "array":
+                    return "array"
+                # cls._cache[key] of a narrow class
+                if isinstance(e.value, ast.Attribute) and e.value.attr == "_cache" and fn.cls is not None and fn.cls.qualname in narrow:
+                    return "array"
+                return None
+            return None
+
+        changed = True
+        while changed:
+            changed = False
+            for st in walk_no_nested(fn.node):
+                if isinstance(st, ast.Assign) and len(st.targets) == 1 and isinstance(st.targets[0], ast.Name):
+                    k = kind_of(st.value)
+                    if k is not None and names.get(st.targets[0].id) != k:
+                        names[st.targets[0].id] = k
+                        changed = True
+        for call in walk_no_nested(fn.node):
+            if not isinstance(call, ast.Call):
+                continue
+            f = call.func
+            nm = f.attr if isinstance(f, ast.Attribute) else getattr(f, "id", "")
+            if nm not in ACCUMULATING:
+                continue
+            is_np = isinstance(f, ast.Attribute) and isinstance(f.value, ast.Name) and f.value.id in ("np", "numpy")
+            operands = list(call.args) if is_np else ([f.value] + list(call.args) if isinstance(f, ast.Attribute) else [])
+            arrays = [a for a in operands if not isinstance(a, ast.Constant) and not (isinstance(a, (ast.List, ast.Tuple)) and all(isinstance(x, (ast.Constant, ast.Name)) for x in a.elts))]
+            arrays = [a for a in arrays if not (isinstance(a, ast.Name) and a.id not in names and nm in ("tensordot", "einsum") and a is not operands[0] and a is not (operands[1] if len(operands) > 1 else None))]
+            narrow_ops = [a for a in arrays if kind_of(a) == "array"]
+            if not narrow_ops:
+                continue
+            data_ops = [a for a in arrays[:2]] if nm in ("tensordot", "dot", "matmul", "inner", "vdot", "kron", "convolve") else [arrays[0]] if nm != "einsum" else [a for a in arrays if not isinstance(a, ast.Constant)]
+            n += 1
+            loc = f"{fn.module.rel}:{call.lineno}"
+            label = ast.unparse(call)[:70]
+            widened = any(k.arg == "dtype" for k in call.keywords)
+            def _empty_axes(a_: ast.AST) -> bool:
+                return isinstance(a_, (ast.Tuple, ast.List)) and len(a_.elts) == 2 and all(isinstance(x, (ast.Tuple, ast.List)) and not x.elts for x in a_.elts)
+
+            outer = nm == "tensordot" and ((len(call.args) > 2 and (isinstance(call.args[2], ast.Constant) and call.args[2].value == 0 or _empty_axes(call.args[2]))) or any(
+                k.arg == "axes" and isinstance(k.value, ast.Constant) and k.value.value == 0 for k in call.keywords))
+            if outer:
+                run.add("E6.K10", fn.short, label, PROVEN, "an outer product (axes=0): nothing is summed", loc)
+            elif widened:
+                run.add("E6.K10", fn.short, label, PROVEN, "accumulates in the dtype given by dtype=", loc)
+            elif all(kind_of(a) == "array" for a in data_ops):
+                run.add("E6.K10", fn.short, label, VIOLATION,
+                        f"`{label}` contracts / sums arrays that all come from int8 tensors ({', '.join(sorted(set(prog.classes[q].name for q in narrow)))}): numpy "
+                        f"accumulates in int8, so a sum of more than 127 equal terms wraps around (e.g. the (n - p)! terms of an epsilon-epsilon contraction "
+                        f"from n - p = 6 on); widen one operand (astype) or pass dtype=", loc)
+            else:
+                run.add("E6.K10", fn.short, label, PROVEN, "another operand decides the accumulator dtype (numpy promotes)", loc)
+    return n
